@@ -11,6 +11,29 @@
  * records are written as abstract Cancel.tla records for spec/CancelTrace.tla.
  *
  * usage: drv_cancel OUT SEED PERTURB NEXEC [KINDMASK] [MODEMASK] [STEER]
+ *   KINDMASK  bit per source kind (K_* below), MODEMASK bit per cancellation mode (M_* below)
+ *   STEER     bit 0: hold the manager between the NEEDS_DELETE store of _dispatch_event_merge_hangup and
+ *                    _dispatch_source_merge_evt until the target queue has acknowledged the deletion (<= 50 ms);
+ *                    in the cancel_and_wait/hang-up mode the EOF handler stays in its body until the call returned
+ *             bit 1: hold the drainer between the flags load of _dispatch_source_invoke2 and the latch until a
+ *                    foreign cancel has returned (<= 20 ms): the "one invocation already committed" of the property
+ * exit: 0 ok, 2 an API-level oracle failed, 70 crash inside the library, 71 no progress for 45 s (hang).
+ *
+ * Oracles (all evaluated on the recorded total order / on the kernel's own state):
+ *   - no event handler start after dispatch_source_cancel was CALLED from the handler or from an item on the
+ *     serial target queue; at most one after a cancel issued elsewhere (or cancel_and_wait) RETURNED;
+ *   - the event handler never runs on two threads, always on the target queue (dispatch_get_specific + current queue);
+ *   - the cancel handler runs exactly once (waited for without a time bound: a hang is detected by the watchdog),
+ *     on the target queue, after the last event handler end, never followed by an event handler start, with
+ *     {CANCELED, DELETED} set, du_state unregistered and the descriptor absent from the library's epoll set
+ *     (/proc/self/fdinfo/<epfd>; for signals: no signalfd left open);
+ *   - inside the cancel handler (after cancel_and_wait returned) the descriptor number is recycled onto another open
+ *     file while the old open file description is kept alive and made readable: the old handler must stay silent,
+ *     a NEW source on the recycled number must get its event;
+ *   - cancel_and_wait returns only in the final state; dispatch_source_testcancel != 0 after every cancel;
+ *   - final state at quiescence for every entry point (before activation, twice, while suspended, hang-up race).
+ * Object ids given to verif_rt are unique per execution and the projector keeps only the records of the current
+ * execution's two objects (source, refs); the next execution starts after the source's finalizer ran.
  */
 #include "internal.h"
 #include <pthread.h>
